@@ -574,6 +574,12 @@ pub fn priority_patterns() -> BoxedStrategy<PatSpec> {
             p.allow_greedy = true;
             p
         }),
+        // counted repetitions with large minimum counts (the rule multiplies by the minimum, whatever its size)
+        1 => (select(vec!["a", "[a-z]", "(?:ab|c)", "é", "\\d"]), select(vec![5u32, 16, 31, 32, 33, 40, 64]), select(vec!["", ",", ",70"]), select(vec!["", "x", "[0-9]?"])).prop_map(|(body, n, hi, tail)| {
+            let mut p = PatSpec::regex(LitSpec::str(format!("{body}{{{n}{hi}}}{tail}")));
+            p.allow_greedy = true;
+            p
+        }),
         2 => (vec(select(STR_CHARS), 0..=5), prop::bool::weighted(0.3)).prop_map(|(cs, ic)| {
             let mut p = PatSpec::token(LitSpec::str(cs.into_iter().collect::<String>()));
             p.ignore_case = ic;
@@ -902,6 +908,10 @@ pub fn subpattern_defs() -> BoxedStrategy<SubCase> {
                         1 => Ast::Cat(vec![a.clone(), r, a]),
                         _ => Ast::Cat(vec![a, r]),
                     };
+                }
+                // a reference right behind an escaped backslash (`\\\\(?&name)`): the backslash pair is a literal, the group a reference
+                if picks[(i * 3 + 2) % picks.len()] % 7 == 0 {
+                    a = Ast::Cat(vec![Ast::Lit("\\".into()), Ast::Ref(defined[i % defined.len()].clone()), a]);
                 }
                 total_refs += count_refs(&a);
                 max_depth = max_depth.max(1 + depth.iter().copied().max().unwrap_or(0));
